@@ -20,3 +20,9 @@ package rest
 //@   loop 0: modifies elems(routes)
 //@   modifies elems(routes)
 //@   allocates
+
+// the timeout middleware of a route group is built from that group's own setting (else the configured server-wide one),
+// never from the engine's maximum over all routes
+//@ func (ng *engine) buildChainWithNativeMiddlewares
+//@   property C04
+//@   call TimeoutHandler#0: assert arg_duration == ite(fr.timeout > 0, fr.timeout, time.Duration(ng.conf.Timeout) * time.Millisecond)
